@@ -241,7 +241,12 @@ fn judge(case: &CliCase, run: &CliRun, refo: &Outcome, reflog: &[crate::job::Log
         return Some(("cli-hang".into(), "the binary did not finish within 30 s".into()));
     }
     let fired: Vec<&ShimCall> = run.calls.iter().filter(|c| c.action != "-").collect();
-    let hard: Vec<&&ShimCall> = fired.iter().filter(|c| !is_benign(&c.action)).collect();
+    let mut hard: Vec<&&ShimCall> = fired.iter().filter(|c| !is_benign(&c.action)).collect();
+    // EAGAIN (a non-blocking stdout that is full right now) may be reported as the I/O error it
+    // is, or waited out and resumed: a run that exits 0 after it is held to the fault-free rules
+    if run.exit == Some(0) && hard.iter().all(|c| c.action == "EAGAIN") {
+        hard.clear();
+    }
     let stdin_invalid = case.entry.is_none() && case.stdin.as_ref().map_or(false, |s| std::str::from_utf8(s).is_err());
     let target: &[u8] = match &case.output {
         Some(_) => run.outfile.as_deref().unwrap_or(&[]),
@@ -589,6 +594,11 @@ fn fault_plans(case: &CliCase, base: &CliRun) -> Vec<String> {
         for a in acts {
             out.push(format!("{}:{}:{}:{}", c.call, cls, c.nth, a));
         }
+        if c.call == "write" && c.class == "fd1" {
+            // stdout is a non-blocking pipe that is full: at once, or after part of the CSS went through
+            out.push(format!("write:fd1:{}:EAGAIN", c.nth));
+            out.push(format!("write:fd1:{}:short3;write:fd1:{}:EAGAIN", c.nth, c.nth + 1));
+        }
     }
     out
 }
@@ -762,7 +772,7 @@ impl Engine for Cli {
         out
     }
     fn rule(&self) -> String {
-        "seeded scenarios: entry text = corpus item (valid, invalid, or native indented / plain CSS) optionally wrapped with @import from -I directories (same-named file in two load paths), @warn/@debug, non-ASCII content, trailing @error or syntax error; argv = seeded spellings of --style/-s, -q/--quiet, --no-unicode, --no-charset, -I/--load-path x {file argument, --stdin} x {stdout, output file}; the Options the flags should produce are generated with the argv. Per scenario the fault position is enumerated from the shim log of the fault-free run: every read/write/open on {stdin, stdout, first stderr writes, entry file, output file} x {EINTR, short transfer, and the hard errnos applicable to that call}. Non-trivial = fault-free scenarios plus runs whose planned fault actually fired (per shim log); distinct by full case.".into()
+        "seeded scenarios: entry text = corpus item (valid, invalid, or native indented / plain CSS) optionally wrapped with @import from -I directories (same-named file in two load paths), @warn/@debug, non-ASCII content, trailing @error or syntax error; argv = seeded spellings of --style/-s, -q/--quiet, --no-unicode, --no-charset, -I/--load-path x {file argument, --stdin} x {stdout, output file}; the Options the flags should produce are generated with the argv. Per scenario the fault position is enumerated from the shim log of the fault-free run: every read/write/open on {stdin, stdout, first stderr writes, entry file, output file} x {EINTR, short transfer, and the hard errnos applicable to that call}, plus EAGAIN on stdout (at once, and after a short write). Non-trivial = fault-free scenarios plus runs whose planned fault actually fired (per shim log); distinct by full case.".into()
     }
     fn assumptions(&self) -> Vec<String> {
         vec![
